@@ -674,6 +674,10 @@ def confirm_hang(stats, text):
     """a worker was stuck in one text for more than 90 s: parse it once more, untraced, in a process of its own with a 60 s
     limit (the whole work budget B(n) costs a few seconds at untraced speed); only a second overrun is a violation"""
     import subprocess
+    if sum(1 for k in stats.failures if k.startswith('no-termination/')) >= 2:
+        # two confirmed cases are on record: further stuck jobs are only counted (each confirmation costs a minute)
+        stats.extra['stuck_jobs_not_confirmed'] = stats.extra.get('stuck_jobs_not_confirmed', 0) + 1
+        return
     prog = ("import sys; sys.path.insert(0, sys.argv[1]); from klongpy import KlongInterpreter\n"
             "t = sys.stdin.read()\n"
             "try:\n    KlongInterpreter().prog(t)\nexcept Exception:\n    pass\n")
